@@ -10,15 +10,15 @@ Lemma name_eqb_eq a b : name_eqb a b = true <-> a = b.
 Proof.
   revert b. induction a as [|x a IH]; intros [|y b]; cbn [name_eqb]; split; intros H;
     try reflexivity; try discriminate.
-  - apply andb_prop in H. destruct H as [H1 H2]. apply N.eqb_eq in H1. apply IH in H2. congruence.
-  - inversion H; subst. rewrite N.eqb_refl. cbn [andb]. apply IH. reflexivity.
+  - destruct (N.eqb_spec x y) as [->|Hne]; [|discriminate]. apply IH in H. congruence.
+  - inversion H; subst. rewrite N.eqb_refl. apply IH. reflexivity.
 Qed.
 
 Lemma key_eqb_eq a b : key_eqb a b = true <-> a = b.
 Proof.
   destruct a as [a1 a2], b as [b1 b2]. unfold key_eqb. cbn [fst snd]. split; intros H.
-  - apply andb_prop in H. destruct H as [H1 H2]. apply name_eqb_eq in H1. apply name_eqb_eq in H2. congruence.
-  - inversion H; subst. apply andb_true_intro. split; apply name_eqb_eq; reflexivity.
+  - destruct (name_eqb a1 b1) eqn:H1; [|discriminate]. apply name_eqb_eq in H1. apply name_eqb_eq in H. congruence.
+  - inversion H; subst. rewrite (proj2 (name_eqb_eq b1 b1) eq_refl). apply name_eqb_eq; reflexivity.
 Qed.
 
 Lemma key_eqb_refl a : key_eqb a a = true.
@@ -275,7 +275,7 @@ Proof.
   intros ->. reflexivity.
 Qed.
 
-Lemma merge_metric_admitted t k m : refuses t k m = false ->
+Lemma merge_metric_taken t k m : refuses t k m = false ->
   merge_metric t k m =
   T (tmax t) (match lookup k (entries t) with None => tcount t + 1 | Some _ => tcount t end)
     (tdropped t) (tfailed t) (upsert k m (entries t)).
@@ -294,14 +294,14 @@ Lemma merge_metric_dropped t k m :
 Proof.
   destruct (refuses t k m) eqn:E.
   - rewrite merge_metric_refused by exact E. reflexivity.
-  - rewrite merge_metric_admitted by exact E. cbn. lia.
+  - rewrite merge_metric_taken by exact E. cbn. lia.
 Qed.
 
 Lemma merge_metric_wf t k m : wf t -> wf (merge_metric t k m).
 Proof.
   intros [Hnd Hc]. destruct (refuses t k m) eqn:E.
   - rewrite merge_metric_refused by exact E. split; assumption.
-  - rewrite merge_metric_admitted by exact E. split; cbn [entries tcount].
+  - rewrite merge_metric_taken by exact E. split; cbn [entries tcount].
     + apply nodup_upsert. exact Hnd.
     + rewrite length_upsert. destruct (lookup k (entries t)); lia.
 Qed.
@@ -313,7 +313,7 @@ Lemma merge_metric_get t k m k' :
 Proof.
   destruct (refuses t k m) eqn:E.
   - rewrite merge_metric_refused by exact E. reflexivity.
-  - rewrite merge_metric_admitted by exact E. rewrite !get_lget. cbn [entries]. apply lget_upsert.
+  - rewrite merge_metric_taken by exact E. rewrite !get_lget. cbn [entries]. apply lget_upsert.
 Qed.
 
 (* a forced metric is never refused *)
@@ -385,7 +385,7 @@ Section Fold.
   Proof.
     destruct (refuses t k m) eqn:E.
     - rewrite merge_metric_refused by exact E. unfold unforced_count. cbn [entries]. destruct (forced m); lia.
-    - rewrite merge_metric_admitted by exact E. unfold unforced_count. cbn [entries].
+    - rewrite merge_metric_taken by exact E. unfold unforced_count. cbn [entries].
       generalize (entries t) as l. induction l as [|[k' e] l IHl]; cbn [upsert filter length snd].
       + destruct (forced m); cbn; lia.
       + destruct (key_eqb k k'); cbn [filter snd forced].
@@ -512,7 +512,7 @@ Proof.
   revert t. induction os as [|ke os IH]; intros t H; [reflexivity|]. cbn [count_refused_g length] in *.
   destruct (refuses t (g (fst ke)) (snd ke)) eqn:E.
   - apply refuses_full in E. lia.
-  - rewrite IH; [lia|]. rewrite merge_metric_max. rewrite merge_metric_admitted by exact E. cbn [tcount].
+  - rewrite IH; [lia|]. rewrite merge_metric_max. rewrite merge_metric_taken by exact E. cbn [tcount].
     destruct (lookup _ _); lia.
 Qed.
 
@@ -545,7 +545,7 @@ Proof.
   { pose proof (foldg_dropped g (merge_metric t (g (fst ke)) (snd ke)) os).
     pose proof (foldg_dropped_mono g (merge_metric t (g (fst ke)) (snd ke)) os). lia. }
   destruct (refuses t (g (fst ke)) (snd ke)) eqn:E; [lia|].
-  rewrite IH by lia. rewrite merge_metric_admitted by exact E. cbn [entries]. rewrite total_cnt_upsert.
+  rewrite IH by lia. rewrite merge_metric_taken by exact E. cbn [entries]. rewrite total_cnt_upsert.
   unfold total_cnt at 4. cbn [map zsum fold_right]. unfold total_cnt, zsum. lia.
 Qed.
 
@@ -757,7 +757,7 @@ Proof.
   intros [_ Hc] Hb. unfold bounded in *. rewrite merge_metric_max.
   destruct (refuses t k m) eqn:E.
   - rewrite merge_metric_refused by exact E. exact Hb.
-  - rewrite merge_metric_admitted by exact E. unfold unforced_count in *. cbn [entries].
+  - rewrite merge_metric_taken by exact E. unfold unforced_count in *. cbn [entries].
     change (fun ke : key * mentry => negb (forced (snd ke))) with unf in *.
     rewrite unforced_upsert. rewrite refuses_spec in E.
     destruct (lookup k (entries t)); [lia|]. destruct (forced m); [lia|].
@@ -895,3 +895,167 @@ Proof.
   - eexists. cbn [apply_rules_opt]. unfold apply_rules. eapply B_rules_some; [exact IH|apply Permutation_refl].
   - eexists. cbn [apply_rules_opt]. apply B_rules_none. exact IH.
 Qed.
+
+(* ------------------------------------------------------------------ what depends on the iteration order *)
+Definition absent_in (t : table) (ke : key * mentry) : bool :=
+  match get (fst ke) t with None => true | Some _ => false end.
+
+Lemma merge_metric_get_other t k m k' : k' <> k -> get k' (merge_metric t k m) = get k' t.
+Proof.
+  intros Hne. rewrite merge_metric_get. destruct (refuses t k m); [reflexivity|].
+  assert (E : key_eqb k k' = false) by (apply key_eqb_neq; congruence). rewrite E. reflexivity.
+Qed.
+
+Lemma merge_metric_balance t k m :
+  tcount (merge_metric t k m) + tdropped (merge_metric t k m) =
+  tcount t + tdropped t + (if absent_in t (k, m) then 1 else 0).
+Proof.
+  unfold absent_in, get. cbn [fst]. unfold merge_metric.
+  destruct (lookup k (entries t)); cbn [option_map tcount tdropped]; [lia|].
+  destruct (full t && negb (forced m)); cbn [tcount tdropped]; lia.
+Qed.
+
+(* Merging the entries of a table (distinct keys) in ANY order:
+   - keys not offered are untouched;
+   - an offered entry that is forced, or whose key is already present, is always combined in;
+   - an offered unforced entry with a new key is either taken as it is or refused as a whole
+     (which of them are refused when the table is full is the only thing the order decides);
+   - count + numDropped does not depend on the order. *)
+Lemma merge_entries_char ord : forall t, NoDup (keys ord) ->
+  (forall k, ~ In k (keys ord) -> get k (merge_entries t ord) = get k t) /\
+  (forall k e, In (k, e) ord -> forced e = true \/ get k t <> None ->
+     get k (merge_entries t ord) = oplus (get k t) (Some (data e))) /\
+  (forall k e, In (k, e) ord ->
+     get k (merge_entries t ord) = oplus (get k t) (Some (data e)) \/
+     (get k (merge_entries t ord) = None /\ get k t = None /\ forced e = false)) /\
+  tcount (merge_entries t ord) + tdropped (merge_entries t ord) =
+  tcount t + tdropped t + Z.of_nat (length (filter (absent_in t) ord)).
+Proof.
+  induction ord as [|[k0 e0] ord IH]; intros t Hnd.
+  - cbn [merge_entries fold_left keys map In filter length]. repeat split; intros; try contradiction; try reflexivity; lia.
+  - cbn [keys map fst] in Hnd. inversion Hnd as [|? ? Hni Hnd']; subst.
+    change (merge_entries t ((k0, e0) :: ord)) with (merge_entries (merge_metric t k0 e0) ord).
+    set (t1 := merge_metric t k0 e0).
+    destruct (IH t1 Hnd') as (I1 & I2 & I3 & I4).
+    assert (Hoth : forall k, k <> k0 -> get k t1 = get k t) by (intros k Hk; apply merge_metric_get_other; exact Hk).
+    assert (Hk0 : get k0 (merge_entries t1 ord) = get k0 t1) by (apply I1; exact Hni).
+    assert (Hne : forall k e, In (k, e) ord -> k <> k0).
+    { intros k e Hin ->. apply Hni. change k0 with (fst (k0, e)). apply in_map. exact Hin. }
+    repeat split.
+    + intros k Hk. cbn [keys map fst In] in Hk. rewrite I1 by tauto. apply Hoth. intros ->. apply Hk. left. reflexivity.
+    + intros k e [Heq|Hin] Hor.
+      * inversion Heq; subst k e. rewrite Hk0. unfold t1. rewrite merge_metric_get.
+        assert (Hr : refuses t k0 e0 = false).
+        { destruct Hor as [Hf|Hp]; [apply forced_never_refused; exact Hf|].
+          unfold refuses. destruct (get k0 t); [reflexivity|contradiction]. }
+        rewrite Hr, key_eqb_refl. reflexivity.
+      * rewrite (I2 k e Hin); rewrite (Hoth k (Hne k e Hin)); [reflexivity|exact Hor].
+    + intros k e [Heq|Hin].
+      * inversion Heq; subst k e. rewrite Hk0. unfold t1. rewrite merge_metric_get.
+        destruct (refuses t k0 e0) eqn:Hr.
+        -- right. apply refuses_full in Hr. tauto.
+        -- left. rewrite key_eqb_refl. reflexivity.
+      * destruct (I3 k e Hin) as [H|H]; rewrite (Hoth k (Hne k e Hin)) in H; [left|right]; exact H.
+    + rewrite I4. unfold t1 at 1 2. rewrite merge_metric_balance.
+      cbn [filter].
+      assert (Hf : filter (absent_in t1) ord = filter (absent_in t) ord).
+      { apply filter_ext_in. intros [k e] Hin. unfold absent_in. cbn [fst]. rewrite (Hoth k (Hne k e Hin)). reflexivity. }
+      rewrite Hf. destruct (absent_in t (k0, e0)); cbn [length]; lia.
+Qed.
+
+Theorem merge_order_effect t ord1 ord2 : NoDup (keys ord1) -> Permutation ord1 ord2 ->
+  tcount (merge_entries t ord1) + tdropped (merge_entries t ord1) =
+  tcount (merge_entries t ord2) + tdropped (merge_entries t ord2) /\
+  (forall k e, In (k, e) ord1 -> forced e = true \/ get k t <> None ->
+     get k (merge_entries t ord1) = get k (merge_entries t ord2)) /\
+  (forall k, ~ In k (keys ord1) -> get k (merge_entries t ord1) = get k (merge_entries t ord2)).
+Proof.
+  intros Hnd Hp.
+  assert (Hnd2 : NoDup (keys ord2)) by (eapply Permutation_NoDup; [apply Permutation_map; exact Hp|exact Hnd]).
+  destruct (merge_entries_char ord1 t Hnd) as (A1 & A2 & _ & A4).
+  destruct (merge_entries_char ord2 t Hnd2) as (B1 & B2 & _ & B4).
+  repeat split.
+  - rewrite A4, B4. rewrite (Permutation_length (perm_filter (absent_in t) _ _ Hp)). reflexivity.
+  - intros k e Hin Hor. rewrite (A2 k e Hin Hor). symmetry. apply B2; [|exact Hor]. eapply Permutation_in; eassumption.
+  - intros k Hk. rewrite A1 by exact Hk. symmetry. apply B1. intros Hk2. apply Hk.
+    eapply Permutation_in; [apply Permutation_map; apply Permutation_sym; exact Hp|exact Hk2].
+Qed.
+
+(* ------------------------------------------------------------------ executable refusal count; non-vacuity *)
+Fixpoint exec_r (b : build) : Z :=
+  match b with
+  | BNew _ => 0
+  | BAdds b l => exec_r b + (tdropped (exec (BAdds b l)) - tdropped (exec b))
+  | BTxn b txn ms => exec_r b + (tdropped (exec (BTxn b txn ms)) - tdropped (exec b))
+  | BMerge b f => exec_r b + exec_r f + (tdropped (exec (BMerge b f)) - tdropped (exec b))
+  | BMergeFailed b f => exec_r b + exec_r f + (tdropped (exec (BMergeFailed b f)) - tdropped (exec b))
+  | BRules b None => exec_r b
+  | BRules b (Some rn) => exec_r b + tdropped (exec (BRules b (Some rn)))
+  end.
+
+Lemma exec_builds_r b : builds b (exec b) (exec_r b).
+Proof.
+  induction b as [max|b IH l|b IH txn ms|b IHb f IHf|b IHb f IHf|b IH [rn|]]; cbn [exec exec_r].
+  - constructor.
+  - constructor. exact IH.
+  - constructor. exact IH.
+  - unfold merge. eapply B_merge; [exact IHb|exact IHf|apply Permutation_refl].
+  - unfold merge_failed. eapply B_mfail; [exact IHb|exact IHf|apply Permutation_refl].
+  - cbn [apply_rules_opt]. unfold apply_rules. eapply B_rules_some; [exact IH|apply Permutation_refl].
+  - cbn [apply_rules_opt]. apply B_rules_none. exact IH.
+Qed.
+
+Definition ex_k1 : key := ([97%N], []).            (* "a" unscoped *)
+Definition ex_k2 : key := ([98%N], []).            (* "b" unscoped *)
+Definition ex_c1 := ARaw ex_k1 false (MD 1 1 5 7 9 2).
+Definition ex_c2 := ARaw ex_k1 false (MD 1 2 1 3 11 4).
+Definition ex_c3 := ARaw ex_k2 true (MD 1 4 0 2 2 8).
+Definition ex_b1 : build := BAdds (BNew 10) [ex_c1; ex_c2; ex_c3].
+Definition ex_b2 : build := BMergeFailed (BAdds (BNew 2) [ex_c3]) (BMerge (BAdds (BNew 10) [ex_c2]) (BAdds (BNew 10) [ex_c1])).
+
+(* the hypotheses of order_independent are met by two different regroupings, and the conclusion is not trivial *)
+Example ex_order_independent :
+  builds ex_b1 (exec ex_b1) 0 /\ builds ex_b2 (exec ex_b2) 0 /\
+  Permutation (contribs LIM ex_b1) (contribs LIM ex_b2) /\
+  get ex_k1 (exec ex_b1) = Some (MD 2 3 6 3 11 6) /\ get ex_k1 (exec ex_b2) = Some (MD 2 3 6 3 11 6).
+Proof.
+  split; [exact (exec_builds_r ex_b1)|]. split; [exact (exec_builds_r ex_b2)|]. split.
+  - vm_compute. apply Permutation_trans with (l' := [aop_contrib ex_c3; aop_contrib ex_c1; aop_contrib ex_c2]).
+    + apply Permutation_sym. apply (Permutation_cons_append [aop_contrib ex_c1; aop_contrib ex_c2] (aop_contrib ex_c3)).
+    + apply perm_skip. apply perm_swap.
+  - split; vm_compute; reflexivity.
+Qed.
+
+(* a refusal really is outside the theorem: with capacity 1 the second key is refused *)
+Example ex_refusal : exec_r (BAdds (BNew 1) [ex_c1; ARaw ex_k2 false (MD 1 4 0 2 2 8)]) = 1.
+Proof. vm_compute. reflexivity. Qed.
+
+(* rename: both keys renamed to "z" are combined, nothing is lost, the attempt counter is kept *)
+Definition ex_rn (n : name) : name := [122%N].
+Example ex_rename :
+  let t := exec (BMergeFailed (BNew 1) ex_b1) in
+  let t' := apply_rules ex_rn t in
+  tfailed t = 1 /\ tcount t = 2 /\ tfailed t' = 1 /\ tcount t' = 1 /\ tdropped t' = 0 /\
+  get ([122%N], []) t' = Some (MD 3 7 6 2 11 14).
+Proof. vm_compute. repeat split; reflexivity. Qed.
+
+(* at capacity: max unforced then a forced one, renamed one to one: all entries survive *)
+Example ex_rename_at_capacity :
+  let t := exec (BAdds (BNew 2) [ex_c1; ARaw ex_k2 false (MD 1 4 0 2 2 8); ARaw ([99%N], []) true (MD 1 8 0 0 0 0)]) in
+  let t' := apply_rules (fun n => 120%N :: n) t in
+  tcount t = 3 /\ tdropped t = 0 /\ tcount t' = 3 /\ tdropped t' = 0 /\ tmax t' = 2.
+Proof. vm_compute. repeat split; reflexivity. Qed.
+
+Example ex_scoped :
+  let t := aggregate_metrics (new_table 10) [84%N] [TM [97%N] true false (MD 1 2 3 4 5 6)] in
+  tdropped t = tdropped (new_table 10) /\
+  get ([97%N], []) t = Some (MD 1 2 3 4 5 6) /\ get ([97%N], [84%N]) t = Some (MD 1 2 3 4 5 6).
+Proof. vm_compute. repeat split; reflexivity. Qed.
+
+(* both branches of merge_failed_counter are reachable *)
+Example ex_merge_failed :
+  tfailed (exec (BMergeFailed (BNew 10) ex_b1)) = 1 /\
+  (let five := BMergeFailed (BNew 10) (BMergeFailed (BNew 10) (BMergeFailed (BNew 10) (BMergeFailed (BNew 10) (BMergeFailed (BNew 10) ex_b1)))) in
+   tfailed (exec five) = 5 /\ tcount (exec five) = 2 /\
+   exec (BMergeFailed (BNew 10) five) = new_table 10).
+Proof. vm_compute. repeat split; reflexivity. Qed.
